@@ -245,6 +245,19 @@ PROPS = {
         level_note='No obligation proved. Contract precondition for Curry: 1 <= n_wires <= len(dom) (n_wires = 0 is outside the '
                    'documented domain).',
         technique='bounded run-time contracts with independent re-derivation of the parse'),
+    'C19': dict(
+        title='Cartesian diagrams compute the function they draw',
+        level='exploration',
+        vc=[], sym=[], rtc='C19',
+        level_text='Bounded stand-in: every cartesian diagram with <= 2 (thorough 3) boxes over 13 boxes of arities 0..2 -> 0..2 '
+                   '(incl. no inputs / no outputs, swap, copy, discard) is called on tuples with falsy and string values and '
+                   'compared with an independent evaluator that feeds the inputs through the boxes in order and splices the '
+                   'outputs in place; Swap(l, r) for l, r <= 3, Copy(n) / Discard(n) for n <= 5 as wire permutations / '
+                   'duplications / deletions and their representation invariant; naturality of swap, copy and discard for ten '
+                   'boxes on all inputs over 3 values; Function.then / tensor / id against the same evaluator; arity errors refused.',
+        level_note='No obligation proved. Contract precondition: wire values are not tuples and a box returns a bare value for one '
+                   'output, a tuple of length cod otherwise; tuple-valued wires (F13) are outside it.',
+        technique='bounded run-time contracts against an independent wire-list evaluator'),
     'C05': dict(
         title='Interchange moves exactly one box past a disconnected neighbour',
         level='proof',
